@@ -236,6 +236,7 @@ func VH_C02_float_precision() {
 
 func VH_C02_time() {
 	t := vTime()
+	zzverif.Assume(t.Unix() > -8000000000 && t.Unix() < 8000000000) // inside the UnixNano range (the property's restriction)
 	var want []byte
 	var format string
 	switch zzverif.Choice(5) {
@@ -449,6 +450,7 @@ func VH_C02_entry_points_time() {
 	vSetNames()
 	vSetTimeGlobals()
 	t := vTime()
+	zzverif.Assume(t.Unix() > -8000000000 && t.Unix() < 8000000000)
 	ev := func() *Event { return newEvent(nil, InfoLevel) }
 	a := vFrag(ev().Time("k", t).buf)
 	b := vFrag(Context{Logger{context: []byte{'{'}}}.Time("k", t).l.context)
